@@ -266,8 +266,12 @@ const HALVES: [f64; 9] = [-2.0, -1.5, -1.0, -0.5, 0.5, 1.0, 1.5, 2.0, 0.0];
 fn coef(rng: &mut Rng, allow_zero: bool) -> F {
     loop {
         let c = *rng.pick(&HALVES);
-        if c != 0.0 || (allow_zero && rng.chance(1, 2)) {
+        if c != 0.0 {
             return F(c);
+        }
+        if allow_zero && rng.chance(1, 2) {
+            // an explicit zero, of either sign
+            return F(if rng.chance(1, 3) { -0.0 } else { 0.0 });
         }
         if allow_zero {
             continue;
